@@ -8,7 +8,7 @@ use proptest::strategy::Strategy;
 use serde::{Deserialize, Serialize};
 use serde_json::json;
 
-pub const RULE: &str = "case = (game, depth 8-11 under an infinite, a far-away fixed-move-time or a far-away clock time control, hash 1/2/3/16 MB, 0-2 earlier searches). The unstopped search is run once with hook H1 counting the polls of the stop flag -> N. Then for every k = 1..N (all k when N <= 24, else 1, 2, N-1, N and 12 generated indices (4 when N > 60)) the search is repeated from an identically prepared state with the flag made to read true from the k-th poll on. Oracle: no panic; the move returned is in the reference legal set; the total number of polls equals k (any node examined after the stop was observed would poll again); every line reported before the stop passes the C08 oracle; the Game passed in is unchanged; the position at which the stop was observed (hook H3) is searched next on the same tables (depth 2 under 40 ms) and must give a legal move and legal lines without panic; a follow-up search (unstopped, depth 3-5, same state, same or successor position) passes the complete C08 oracle and returns a legal move. A second family calls the real Control::stop() from another thread after a generated delay; a third ends the search by an expired fixed move time of 0-20 ms instead of a stop request. A 'first_iteration' part uses capture-storm positions (4-8 queens a side) at depth 1-2, where the first poll already falls inside the first iteration, with every k. Non-trivial = k strictly inside an iteration (not the between-iterations poll); distinct by (case, k).";
+pub const RULE: &str = "case = (game, depth 8-11 under an infinite, a far-away fixed-move-time or a far-away clock time control, hash 1/2/3/16 MB, 0-2 earlier searches). The unstopped search is run once with hook H1 counting the polls of the stop flag -> N. Then for every k = 1..N (all k when N <= 24, else 1, 2, N-1, N and 12 generated indices (4 when N > 60)) the search is repeated from an identically prepared state with the flag made to read true from the k-th poll on. Oracle: no panic; the move returned is in the reference legal set; the total number of polls equals k (any node examined after the stop was observed would poll again); every line reported before the stop passes the C08 oracle; the Game passed in is unchanged; the position at which the stop was observed (hook H3) is searched next on the same tables (depth 2 under 40 ms) and must give a legal move and legal lines without panic; a follow-up search (unstopped, depth 3-5, same state, same or successor position) passes the complete C08 oracle and returns a legal move. A second family calls the real Control::stop() from another thread after a generated delay; a third ends the search by an expired fixed move time of 0-20 ms instead of a stop request. A 'first_iteration' part uses capture-storm positions (4-8 queens a side) at depth 1-2, where the first poll already falls inside the first iteration, with every k. An 'any_node' part places the first in-search poll at an arbitrary node N of the search (hook H5; 14 values of N per case, uniform over the nodes of the unstopped search; depth 5-8 with earlier searches, or depth 9-11 from empty tables), under the stop flag and under an expired limit (hook H4), and demands in addition that no node is entered after the stop was observed. Every other index of the fixed-move-time and clock cases of 'stops' ends by an expired limit at poll k instead of the flag. Non-trivial = k strictly inside an iteration (not the between-iterations poll); distinct by (case, k).";
 
 #[derive(Serialize, Deserialize, Clone, Debug)]
 pub enum Case {
@@ -339,16 +339,28 @@ pub fn run(run: &mut Run) -> &'static str {
     // search must cope with a poll at any node - and counts the nodes entered after the stop was seen.
     // One stopped search costs N nodes only, so many more instants are visited than with whole polling
     // distances: 14 values of N per case, uniform over the nodes of the unstopped search.
+    // (the oracle - nodes entered after the stop, legality, the follow-up searches - does not need the
+    // checked build: the part runs in the fast profile when that binary is available, and in this
+    // process otherwise and for replays)
+    let here = profile_name() == "fast" || std::env::var("VERIF_FAST_BIN").is_err() || !run.only_parts.is_empty() || run.replay.is_some();
     let cases = tier.pick(700, 12_000);
     let strat = tape(24..100).prop_map(Case::Tape);
+    if here {
     run.proptest_part("any_node", RULE, strat, cases, move |c: &Case, st: &mut Stats| match c {
         Case::Tape(data) => {
             let Some((mut b, mut tp)) = from_tape(data, tier) else {
                 st.discard();
                 return Ok(());
             };
-            // shallower than in `stops`: the trees stay small, the instants many
-            let d = 5 + tp.pick(4) as u8;
+            // shallower than in `stops`: the trees stay small, the instants many - except for a third
+            // of the cases, which search 9-11 plies deep from empty tables (re-searches of a changed
+            // principal variation, internal sub-searches and the like only exist in deep trees)
+            let deep = tp.pick(3) == 0;
+            let d = if deep { 9 + tp.pick(3) as u8 } else { 5 + tp.pick(4) as u8 };
+            if deep {
+                b.priors.clear();
+                st.class("deep_search_from_empty_tables");
+            }
             b.main.limit = match b.main.limit {
                 Limit::Depth(_) => Limit::Depth(d),
                 Limit::DepthUnderMoveTime { ms, .. } => Limit::DepthUnderMoveTime { depth: d, ms },
@@ -379,6 +391,7 @@ pub fn run(run: &mut Run) -> &'static str {
             run_built(&b, Some(ks), Some(stopper_delays_us), None, st)
         }
     });
+    }
     if let Ok(bin) = std::env::var("VERIF_FAST_BIN") {
         if profile_name() == "checked" && run.only_parts.is_empty() {
             run_sub_process(run, &bin, &["stops", "first_iteration", "any_node"]);
